@@ -37,6 +37,7 @@ const ethGasLimit = 5000000
 const ethGasPrice = 7000000000
 
 type ethRig struct {
+	urls    []string
 	nodes   []*doubles.EthNode
 	adaptor onchain.ProxyAdapter
 	key     *keystore.Key
@@ -66,13 +67,50 @@ func newEthRig(n int) (*ethRig, error) {
 		return nil, err
 	}
 	r.adaptor = ad
-	// which node is the adaptor's endpoint 0, 1, ...: a probe call that every endpoint answers with
-	// an error of the "try the next one" class reaches them in the adaptor's order
+	r.urls = urls
+	if err := r.probeOrder(); err != nil {
+		return nil, err
+	}
+	return r, nil
+}
+
+// reconnect: the node drops all its connections and connects again (optionally after an attempt that
+// fails because no websocket endpoint answers), as its reconnect loop does
+func (r *ethRig) reconnect(failFirst bool) error {
+	r.adaptor.DisconnectAll()
+	if failFirst {
+		var bad []string
+		for _, u := range r.urls {
+			if strings.HasPrefix(u, "ws") {
+				bad = append(bad, "ws://127.0.0.1:1")
+			} else {
+				bad = append(bad, u)
+			}
+		}
+		if err := r.adaptor.Connect(bad, time.Now().Add(700*time.Millisecond)); err == nil {
+			r.adaptor.DisconnectAll()
+		}
+	}
+	if err := r.adaptor.Connect(r.urls, time.Now().Add(5*time.Second)); err != nil {
+		return err
+	}
+	return r.probeOrder()
+}
+
+// which node is the adaptor's endpoint 0, 1, ...: a probe call that every endpoint answers with
+// an error of the "try the next one" class reaches them in the adaptor's order
+func (r *ethRig) probeOrder() error {
+	saved := make([]*doubles.Chain, len(r.nodes))
+	for i, nd := range r.nodes {
+		saved[i] = nd.Chain
+		nd.Reset()
+	}
+	r.order = nil
 	for _, nd := range r.nodes {
 		nd.TxOutcome = func(int) string { return "probe: not now" }
 	}
 	if perr := r.adaptor.SetGroupSize(3); perr != nil && len(r.nodes[0].Txs()) == 0 {
-		return nil, fmt.Errorf("probe call: %v", perr)
+		return fmt.Errorf("probe call: %v", perr)
 	}
 	type arr struct {
 		node int
@@ -81,7 +119,7 @@ func newEthRig(n int) (*ethRig, error) {
 	var as []arr
 	for i, nd := range r.nodes {
 		if len(nd.Txs()) != 1 {
-			return nil, fmt.Errorf("probe: node %d received %d transactions", i, len(nd.Txs()))
+			return fmt.Errorf("probe: node %d received %d transactions", i, len(nd.Txs()))
 		}
 		as = append(as, arr{i, nd.FirstTxAt()})
 	}
@@ -92,7 +130,8 @@ func newEthRig(n int) (*ethRig, error) {
 	for _, nd := range r.nodes {
 		nd.Reset()
 	}
-	return r, nil
+	_ = saved
+	return nil
 }
 
 func (r *ethRig) close() {
@@ -315,6 +354,7 @@ func genC19History(rng *hx.Rng, tier string, w *hx.Writer) {
 		var evs, outs, problems []string
 		var tags []string
 		L := 3 + rng.Intn(4)
+		directed := it%4 == 1 // reconnect (after a failed attempt), a commit-reveal call, a burst
 		call := func(kind int, x, y *big.Int) error {
 			switch kind % 6 {
 			case 0:
@@ -335,7 +375,26 @@ func genC19History(rng *hx.Rng, tier string, w *hx.Writer) {
 				node(e).Reset()
 			}
 			_, before := chain.Snapshot()
-			switch k := rng.Intn(10); {
+			k := rng.Intn(11)
+			if directed && step < 3 {
+				k = []int{10, 5, 9}[step]
+			}
+			switch {
+			case k == 10: // ---- the node drops its connections and connects again
+				failFirst := rng.Bool()
+				if err := rig.reconnect(failFirst); err != nil {
+					problems = append(problems, fmt.Sprintf("step %d: reconnecting failed: %v", step, err))
+				}
+				for i := range alive {
+					alive[i] = true
+				}
+				evs = append(evs, hx.L(hx.Zi(3)))
+				outs = append(outs, hx.L(hx.Zi(3)))
+				if failFirst {
+					tags = append(tags, "reconnect-after-failed-attempt")
+				} else {
+					tags = append(tags, "reconnect")
+				}
 			case k < 3: // ---- a read
 				rs := make([]int, n)
 				var zs []string
@@ -383,7 +442,19 @@ func genC19History(rng *hx.Rng, tier string, w *hx.Writer) {
 					node(e).TxOutcome = func(int) string { return txt }
 					zs = append(zs, hx.Zi(assign[e]))
 				}
-				callErr := call(rng.Intn(6), randWord(rng), randWord(rng))
+				ck := rng.Intn(6)
+				if directed && step == 1 {
+					ck = 3 + rng.Intn(2) // Commit / Reveal: the commit-reveal sessions of the NEW connection
+					for e := 0; e < n; e++ {
+						node(e).TxOutcome = func(int) string { return "" }
+						assign[e] = 0
+					}
+					zs = zs[:0]
+					for e := 0; e < n; e++ {
+						zs = append(zs, hx.Zi(0))
+					}
+				}
+				callErr := call(ck, randWord(rng), randWord(rng))
 				var sent []string
 				stopped := false
 				accepted := 0
